@@ -32,7 +32,12 @@ Interpretation notes (see also `refines_literal_*` below):
 * "already sent in the same deduplication scope" is what the code keeps: the cid has been traversed
   with its block by a request still in progress in the scope (`inUse` for the others, the `seen`
   list of `attach` for the request itself).  For the request itself this counts a block among the
-  first `skip` links as "sent" (the requestor declared it has the first `skip` blocks).
+  first `skip` links as "sent" (the requestor declared it has the first `skip` blocks).  Read
+  literally the sentence wants such a block sent with a later link; that is the known finding
+  `skip-window-revisit` (known_findings.json), delimited by `refines_literal_partial` /
+  `refines_literal_counterexample`.
+* `refines` is the uninterrupted case; `refines_paused` / `paused_concurrent` cover requests paused at
+  any blocks and resumed, with other requests of the peer acting on the link tracker in between.
 -/
 namespace GS.C03
 open GS.LinkTrack GS.Responder GS.C03L
